@@ -100,6 +100,14 @@ def compare_runs(scn, ref, res, out, prop_filter=None, cls="parallel-differs"):
                 for l in f.locs:
                     wp_locs.add((l[0], l[1]))
 
+    if not bd:
+        # ... and the same holds when that whole-program finding is itself suppressed by a command-line entry for exactly
+        # that line (it then never shows up in the output, but still marks the line's suppressions as checked with -j1)
+        for sup in scn.get("suppr", []):
+            parts = sup[len("--suppress="):].split(":")
+            if len(parts) == 3 and parts[2].isdigit() and any(fnmatch.fnmatchcase(w, parts[0]) for w in core.WHOLE_PROGRAM_IDS):
+                wp_locs.add((parts[1], parts[2]))
+
     def keep(f):
         if not not_meta(f):
             return False
